@@ -1,7 +1,196 @@
-(* C07 -- placeholder; theorems are added from proofs/ *)
-Require Import Coq.Lists.List Coq.NArith.NArith.
-From Mustache Require Import Res Iter.
+(* C07 -- a version-filtered job never misses a component that was modified. Statements only; proofs in proofs/VersionProofs.v.
+   Model: Manager.v (version stamps am_gver/am_cver, vs_set_chunk, vs_emplace, vs_set_one, check_and_set, filter_chunks,
+   job_filter) and Iter.v (filter_blocks).
+   What is proved here, for all inputs: the specification of the per-row check-and-stamp; that the per-chunk decisions are
+   independent; that a stamp newer than the job's last version in a checked component of a chunk makes the filter hand
+   every entity position of that chunk to the job (through the global test as well, given the invariant gver_bounds that
+   the stamping primitives establish); that the stamping primitives write the version they are given.
+   What is NOT proved here: the history-level statement (all interleavings of update(), job runs and accesses), which
+   needs in addition that the version handed to the stamping primitives is newer than the last version of every job that
+   ran before. C07_write_detected_iff shows that this is exactly what is needed: a write stamped v is seen iff last < v. *)
+Require Import Coq.Lists.List Coq.NArith.NArith Coq.ZArith.ZArith Coq.Arith.Arith Coq.micromega.Lia.
+From Mustache Require Import Res Iter Manager Palette.
+From Mustache.proofs Require Import VersionProofs.
 Import ListNotations.
-Example C07_placeholder : unrolled 6 = [0; 1; 2; 3; 4; 5].
-Proof. vm_compute. reflexivity. Qed.
-Print Assumptions C07_placeholder.
+
+(* ---- (1) check_and_set: flag, stamped positions, everything else ---- *)
+Theorem C07_check_and_set_spec : forall vers base check set_ last cur,
+  let r := check_and_set vers base check set_ last cur in
+  (snd r = true <-> last = WV_NULL \/ check = [] \/ exists i, In i check /\ (last < nth (base + i) vers 0)%N) /\
+  length (fst r) = length vers /\
+  (snd r = true -> forall p d,
+     ((exists i, In i set_ /\ p = base + i) -> p < length vers -> nth p (fst r) d = cur) /\
+     ((forall i, In i set_ -> p <> base + i) -> nth p (fst r) d = nth p vers d)) /\
+  (snd r = false -> fst r = vers).
+Proof. exact check_and_set_spec. Qed.
+Print Assumptions C07_check_and_set_spec.
+
+(* ---- (3) one archetype: a newer stamp of a checked component in chunk c flags chunk c ---- *)
+Theorem C07_chunk_no_miss : forall nc check set_ last cur todo chunk cv c i,
+  lt_all nc check -> lt_all nc set_ -> chunk <= c < chunk + todo ->
+  In i check -> (last < nth (nc * c + i) cv 0)%N ->
+  nth (c - chunk) (snd (filter_chunks nc check set_ last cur chunk todo cv)) false = true.
+Proof. exact filter_chunks_no_miss. Qed.
+Print Assumptions C07_chunk_no_miss.
+
+Example C07_chunk_no_miss_example :
+  lt_all 2 [1] /\ lt_all 2 [0] /\ 0 <= 1 < 0 + 3 /\ In 1 [1] /\ (0 < nth (2 * 1 + 1) [0; 0; 0; 1; 0; 0] 0)%N /\
+  snd (filter_chunks 2 [1] [0] 0 2 0 3 [0; 0; 0; 1; 0; 0]%N) = [false; true; false].
+Proof.
+  split; [repeat constructor|]. split; [repeat constructor|]. split; [lia|]. split; [left; reflexivity|].
+  split; reflexivity.
+Qed.
+
+(* ... and the archetype is not skipped by the global test, when every chunk stamp is bounded by the global stamp *)
+Theorem C07_global_no_skip : forall a check set_ last cur c i,
+  gver_bounds a -> lt_all (length (am_gver a)) check -> In i check ->
+  (last < nth (length (am_gver a) * c + i) (am_cver a) 0)%N ->
+  snd (check_and_set (am_gver a) 0 check set_ last cur) = true.
+Proof. exact global_test_no_skip. Qed.
+Print Assumptions C07_global_no_skip.
+
+(* gver_bounds is needed: with a global stamp behind a chunk stamp the archetype is skipped although chunk 0 is newer *)
+Example C07_global_skip_without_bounds :
+  (3 < nth 0 [5] 0)%N /\ snd (check_and_set [0%N] 0 [0] [] 3 9) = false.
+Proof. split; reflexivity. Qed.
+
+(* ---- the whole filter ---- *)
+(* the records of archetype ai in the result select exactly the positions whose chunk is flagged (and the global test
+   passed); processed is defined on the INPUT state's stamps only *)
+Theorem C07_job_filter_char : forall s j s1 fas ai a,
+  job_filter s j = Ok (s1, fas) ->
+  nth_error (archs s) ai = Some a -> jmatch j a = true -> 0 < am_chunk a -> ver_wf a ->
+  forall idx, (exists fa, In fa fas /\ fa_arch fa = ai /\ In idx (selected_of_blocks (fa_blocks fa))) <-> processed j a idx.
+Proof. exact job_filter_char. Qed.
+Print Assumptions C07_job_filter_char.
+
+(* no miss: entity position idx of a matching archetype, some checked component stamped newer than the job's last version
+   in idx's version chunk  ==>  the filter hands idx to the job *)
+Theorem C07_job_filter_no_miss : forall s j s1 fas ai a idx i,
+  job_filter s j = Ok (s1, fas) ->
+  nth_error (archs s) ai = Some a -> jmatch j a = true -> 0 < am_chunk a -> ver_wf a -> gver_bounds a ->
+  idx < length (am_ents a) -> In i (jcheck j a) ->
+  (j_last j < nth (length (am_gver a) * (idx / am_chunk a) + i) (am_cver a) 0)%N ->
+  exists fa, In fa fas /\ fa_arch fa = ai /\ In idx (selected_of_blocks (fa_blocks fa)).
+Proof. exact job_filter_no_miss. Qed.
+Print Assumptions C07_job_filter_no_miss.
+
+(* a job that never ran, or that checks no component of the archetype, is handed every position *)
+Theorem C07_job_filter_first_run : forall s j s1 fas ai a idx,
+  job_filter s j = Ok (s1, fas) ->
+  nth_error (archs s) ai = Some a -> jmatch j a = true -> 0 < am_chunk a -> ver_wf a ->
+  j_last j = WV_NULL \/ jcheck j a = [] -> idx < length (am_ents a) ->
+  exists fa, In fa fas /\ fa_arch fa = ai /\ In idx (selected_of_blocks (fa_blocks fa)).
+Proof. exact job_filter_first_run. Qed.
+Print Assumptions C07_job_filter_first_run.
+
+(* non-vacuity on a reachable state: five entities with components {0,1}, version chunks of 2, update(), a write access
+   to component 1 of entity 3, update(); a job writing component 0, reading and checking component 1, last run at 0 *)
+Definition run_ops (n : nat) (cis : list cinfo) (ops : list op) : res mst :=
+  fold_res (fun s o => do r <- step s o; Ok (fst r)) ops (init n cis).
+Definition cis2 : list cinfo := [pal_info 0 0; pal_info 2 0].
+Definition ops_ex : list op :=
+  [OVerChunk 2; OCreate 0 3%N [] false; OCreate 0 3%N [] false; OCreate 0 3%N [] false; OCreate 0 3%N [] false;
+   OCreate 0 3%N [] false; OUpdate true; OGetMut (3, 0)%N 1 (Some 7%Z); OUpdate true].
+Definition s_ex : mst := match run_ops 4 cis2 ops_ex with Ok s => s | Err _ => init 0 [] end.
+Definition j_ex (last : N) : job := {| j_reqs := [(0, false, true); (1, true, true)]; j_check := 2%N; j_last := last |}.
+
+Example C07_job_filter_no_miss_example :
+  exists s1 fas a,
+  job_filter s_ex (j_ex 0) = Ok (s1, fas) /\
+  nth_error (archs s_ex) 0 = Some a /\ jmatch (j_ex 0) a = true /\ 0 < am_chunk a /\ ver_wf a /\ gver_bounds a /\
+  3 < length (am_ents a) /\ In 1 (jcheck (j_ex 0) a) /\
+  (j_last (j_ex 0) < nth (length (am_gver a) * (3 / am_chunk a) + 1) (am_cver a) 0)%N /\
+  map (fun fa => (fa_arch fa, fa_blocks fa)) fas = [(0, [(2, 4)])].
+Proof.
+  eexists. eexists. eexists. split; [vm_compute; reflexivity|]. split; [vm_compute; reflexivity|].
+  split; [vm_compute; reflexivity|]. split; [vm_compute; lia|]. split; [vm_compute; reflexivity|].
+  split.
+  - unfold gver_bounds. cbn [am_gver am_cver length]. intros c i Hi.
+    destruct (Nat.lt_ge_cases c 3) as [Hc|Hc].
+    + destruct c as [|[|[|c]]]; [| | |lia]; (destruct i as [|[|i]]; [| |lia]); vm_compute; discriminate.
+    + rewrite nth_overflow by (cbn [length]; lia). apply N.le_0_l.
+  - split; [vm_compute; lia|]. split; [vm_compute; left; reflexivity|]. split; vm_compute; reflexivity.
+Qed.
+
+(* the same state, a job that never ran: everything is handed over *)
+Example C07_job_filter_first_run_example :
+  exists s1 fas, job_filter s_ex (j_ex WV_NULL) = Ok (s1, fas) /\ map (fun fa => (fa_arch fa, fa_blocks fa)) fas = [(0, [(0, 5)])].
+Proof. eexists. eexists. split; vm_compute; reflexivity. Qed.
+
+(* ---- (5) the stamping primitives write the version they are given ---- *)
+Theorem C07_vs_set_chunk_spec : forall a v c a',
+  vs_set_chunk a v c = Ok a' ->
+  let nc := length (am_gver a) in
+  nc * c + nc <= length (am_cver a) /\
+  am_gver a' = map (fun _ => v) (am_gver a) /\ length (am_cver a') = length (am_cver a) /\
+  (forall i, i < nc -> nth i (am_gver a') 0%N = v) /\
+  (forall i, i < nc -> nth (nc * c + i) (am_cver a') 0%N = v) /\
+  (forall p, p < nc * c \/ nc * c + nc <= p -> nth p (am_cver a') 0%N = nth p (am_cver a) 0%N) /\
+  am_mask a' = am_mask a /\ am_ents a' = am_ents a /\ am_chunk a' = am_chunk a /\ am_cols a' = am_cols a /\ am_size a' = am_size a.
+Proof. exact vs_set_chunk_spec. Qed.
+Print Assumptions C07_vs_set_chunk_spec.
+
+(* emplace: the stamp vector is cut or grown so that the chunk of idx is its last chunk, then that chunk is set *)
+Theorem C07_vs_emplace_spec : forall a v idx a',
+  vs_emplace a v idx = Ok a' ->
+  let nc := length (am_gver a) in
+  exists c, chunk_at a idx = Ok c /\ nc * c <= length (am_cver a) /\
+  am_gver a' = map (fun _ => v) (am_gver a) /\ length (am_cver a') = S c * nc /\
+  (forall i, i < nc -> nth i (am_gver a') 0%N = v) /\
+  (forall i, i < nc -> nth (nc * c + i) (am_cver a') 0%N = v) /\
+  (forall p, p < nc * c -> nth p (am_cver a') 0%N = nth p (am_cver a) 0%N) /\
+  am_mask a' = am_mask a /\ am_ents a' = am_ents a /\ am_chunk a' = am_chunk a /\ am_cols a' = am_cols a /\ am_size a' = am_size a.
+Proof. exact vs_emplace_spec. Qed.
+Print Assumptions C07_vs_emplace_spec.
+
+(* mutable access / markDirty: one chunk stamp and the component's global stamp *)
+Theorem C07_vs_set_one_spec : forall a v c ci a',
+  vs_set_one a v c ci = Ok a' ->
+  let nc := length (am_gver a) in
+  ci < nc /\ nc * c + ci < length (am_cver a) /\
+  am_gver a' = upd (am_gver a) ci v /\ am_cver a' = upd (am_cver a) (nc * c + ci) v /\
+  nth ci (am_gver a') 0%N = v /\ nth (nc * c + ci) (am_cver a') 0%N = v /\
+  (forall p, p <> nc * c + ci -> nth p (am_cver a') 0%N = nth p (am_cver a) 0%N) /\
+  (forall i, i <> ci -> nth i (am_gver a') 0%N = nth i (am_gver a) 0%N).
+Proof. exact vs_set_one_spec. Qed.
+Print Assumptions C07_vs_set_one_spec.
+
+(* the invariant of the global test is (re-)established by a stamp that is at least every chunk stamp present *)
+Theorem C07_stamping_keeps_bounds :
+  (forall a v c a', vs_set_chunk a v c = Ok a' -> Forall (fun x => (x <= v)%N) (am_cver a) ->
+     gver_bounds a' /\ Forall (fun x => (x <= v)%N) (am_cver a')) /\
+  (forall a v idx a', vs_emplace a v idx = Ok a' -> Forall (fun x => (x <= v)%N) (am_cver a) ->
+     gver_bounds a' /\ Forall (fun x => (x <= v)%N) (am_cver a')) /\
+  (forall a v c ci a', vs_set_one a v c ci = Ok a' -> gver_bounds a ->
+     (forall k, (nth (length (am_gver a) * k + ci) (am_cver a) 0 <= v)%N) -> gver_bounds a').
+Proof. split; [exact vs_set_chunk_bounds|split; [exact vs_emplace_bounds|exact vs_set_one_bounds]]. Qed.
+Print Assumptions C07_stamping_keeps_bounds.
+
+Definition a_small : archetype :=
+  {| am_mask := 3%N; am_shared := si_null; am_ents := [(0, 0); (1, 0); (2, 0)]%N; am_cols := [[]; []];
+     am_size := 3; am_chunk := 2; am_gver := [1; 1]%N; am_cver := [1; 0; 1; 1]%N |}.
+Example C07_stamping_examples :
+  (exists a', vs_set_chunk a_small 2 1 = Ok a' /\ am_gver a' = [2; 2]%N /\ am_cver a' = [1; 0; 2; 2]%N) /\
+  (exists a', vs_emplace a_small 2 4 = Ok a' /\ am_gver a' = [2; 2]%N /\ am_cver a' = [1; 0; 1; 1; 2; 2]%N) /\
+  (exists a', vs_emplace a_small 2 1 = Ok a' /\ am_gver a' = [2; 2]%N /\ am_cver a' = [2; 2]%N) /\
+  (exists a', vs_set_one a_small 2 0 1 = Ok a' /\ am_gver a' = [1; 2]%N /\ am_cver a' = [1; 2; 1; 1]%N) /\
+  Forall (fun x => (x <= 2)%N) (am_cver a_small).
+Proof.
+  repeat split; try (eexists; split; [vm_compute; reflexivity|split; reflexivity]).
+  repeat constructor; vm_compute; discriminate.
+Qed.
+
+(* ---- the mechanism of C07: stamps overwrite, so a write is seen exactly when its stamp is newer than last ---- *)
+Theorem C07_write_detected_iff : forall a v c ci a' set_ last cur,
+  vs_set_one a v c ci = Ok a' ->
+  snd (check_and_set (am_cver a') (length (am_gver a') * c) [ci] set_ last cur) = true <-> last = WV_NULL \/ (last < v)%N.
+Proof. exact write_detected_iff. Qed.
+Print Assumptions C07_write_detected_iff.
+
+(* witness: a write access stamped with a version that is not newer than the job's last version (a stale cached world
+   version) is invisible to the job -- the unconditional history-level C07 is false for such a stamping discipline *)
+Example C07_stale_stamp_missed :
+  exists a', vs_set_one a_small 1 0 1 = Ok a' /\
+  snd (filter_chunks 2 [1] [] 1 5 0 2 (am_cver a')) = [false; false].
+Proof. eexists. split; vm_compute; reflexivity. Qed.
